@@ -325,6 +325,7 @@ PROPS = {
         "level": "proof",
         "race": True,
         "extract": ["Calls", "Client", "Endpoint", "Auth"],
+        "extra_modules": ["QiVerif.Props.C04Forward"],
         "rule": "(a) server side, exact: a real server with two probe services counting executions (a hand-written object "
                 "behind the generic object dispatcher: echo / zero-argument tick; the generated PingPong stub), raw frames "
                 "of every message type x known / unknown service, object, action x good / truncated / random arguments, one "
